@@ -31,7 +31,14 @@ func firstDiff(a, b []byte) string {
 // condition holding: the inputs on which an off-by-one in one of the signer's norm tests changes
 // the signature bytes. Found with VERIF_C04_SEARCH=1; at run time the entries are only hints,
 // the counters z_bound_only_cases / r0_bound_only_cases are taken from the reference's trace.
-var edgeCounters = map[string][]int{}
+var edgeCounters = map[string][]int{
+	"Dilithium2": {12, 15, 168, 272},
+	"Dilithium3": {581, 2734, 328, 427},
+	"Dilithium5": {121, 144, 35, 41},
+	"ML-DSA-44":  {139, 158, 151, 235},
+	"ML-DSA-65":  {23, 206, 1, 278},
+	"ML-DSA-87":  {131, 264, 132, 730},
+}
 
 type signCase struct {
 	id   string
@@ -131,7 +138,7 @@ func Sign(t *testing.T, im *Impl) {
 	}
 	r.Set("sign_cases", len(cases))
 	if os.Getenv("VERIF_C04_SEARCH") != "" {
-		const span = 60000
+		const span = 4000
 		zs, rs := make([]bool, span), make([]bool, span)
 		verifmc.ParallelFor(span, func(i int) {
 			_, tr := ref.SignInternal(p, keys[3].rsk, []byte(fmt.Sprintf("verif-%d", i)), rnds[0][:])
@@ -213,7 +220,7 @@ func Sign(t *testing.T, im *Impl) {
 				panic("harness: the reference refuses its own signature: " + string(v))
 			}
 		}
-		if ci < 2 {
+		if ci == 0 {
 			r.Sample(map[string]interface{}{"case": c.id, "mprime": verifmc.Hex(c.mp), "sig": verifmc.Hex(got), "attempts": tr.Attempts})
 		}
 	})
